@@ -18,10 +18,10 @@ EXPLANATION = (
     'must be satisfiable. Counterexamples are replayed on real PuLP + CBC with the matching pinned.')
 ASSUMPTIONS = BASE_ASSUMPTIONS + [
     'well-formed instance: lower <= upper per project, lower <= target <= upper per lecturer',
-    'multipliers concrete (grid below), cut-offs enumerated 1..max rank (+1 for greedy)']
+    'multipliers: a concrete grid AND tasks in which the weights of mincost/minsqcost and the student weight of mincostlsb are symbolic integers >= 0 (all values); the lecturer weight of mincostlsb multiplies integer variables and stays on the grid {0,1,3}', 'cut-offs enumerated 1..max rank (+1 for greedy)']
 LEVEL_TEXT = ('Bounded SMT verification of the real code: z3 shows (exists-forall, all quotas, all MILP tie-breaks) that the matching '
               'reported after the real solve chain is optimal for the documented measure among all matchings satisfying the requested constraints; shapes bounded.')
-LEVEL_NOTE = ('Trusted: z3 quantifier reasoning (MBQI), PuLP stand-in, vf/spec.py measures. Outside: CBC, shapes beyond the bound, multipliers beyond {0..3}.')
+LEVEL_NOTE = ('Trusted: z3 quantifier reasoning (MBQI, qe), PuLP stand-in, vf/spec.py measures. Outside: CBC, shapes beyond the bound, lecturer multipliers of mincostlsb beyond the grid.')
 TECHNIQUE = 'symbolic execution of the real LP/objective builder with symbolic quotas + exists-forall SMT (z3) optimality query against the documented measure; CBC replay'
 RULE = 'one task per (shape, flag set, criterion + argument vector); non-trivial = chain recorded and optimality obligation decided'
 
@@ -61,6 +61,12 @@ def tasks(tier, seed):
             for c in av:
                 out.append({'prop': ID, 'shape': lpchecks.shape_data(I), 'flags': flags, 'seq': [c],
                             'forms': ['opt'], 'wf': True, 'negctl': i < 3})
+            # EVERY multiplier vector at once: the weights of mincost / minsqcost and the student weight of mincostlsb are
+            # symbolic integers >= 0 (the measure stays linear: sum of If(x = 1, y * rank_s + z * rank_l, 0))
+            for c in (('mincost', ['sym', 'sym']), ('minsqcost', ['sym', 'sym']), ('mincostlsb', ['sym', 0]), ('mincostlsb', ['sym', 1]),
+                      ('mincostlsb', ['sym', 3])):
+                out.append({'prop': ID, 'shape': lpchecks.shape_data(I), 'flags': flags, 'seq': [c],
+                            'forms': ['opt'], 'wf': True, 'symmult': True})
     return out
 
 
